@@ -47,6 +47,9 @@ def raising(case):
     return [i for i, it in enumerate(case["items"]) if it.get("err")]
 
 
+HEADS = {"None": lambda: None, "''": lambda: "", "[]": lambda: [], "False": lambda: False, "0": lambda: 0}
+
+
 def unpicklable(case):
     """items the loader cannot pickle (irrelevant on the in-process path, which does not pickle)"""
     if inprocess(case):
@@ -143,6 +146,9 @@ def make_items(case):
                 yield buf
         return records()
     xs = [(FL.BadInt(b + i) if it.get("unpick") else b + i) for i, it in enumerate(case["items"])]
+    if case.get("head") and xs and b == 0 and not case["items"][0].get("unpick"):
+        # the FIRST item of the stream is a falsy value (it stands for item 0): an empty-input shortcut must not mistake it for "no items"
+        xs[0] = HEADS[case["head"]]()
     return iter(xs) if case.get("iter") else xs
 
 
@@ -364,6 +370,8 @@ def judge(case, run):
     ups = unpicklable(case)
     base = case.get("base", 0)
     desc = "n=%d m=%d items=%s abandon=%s" % (case["n"], case["m"], short(case["items"]), case.get("abandon"))
+    if case.get("head") and case["items"]:
+        desc += " first item of the stream = %s%s" % (case["head"], " via CobaMultiprocessor" if case.get("wrap") else "")
     if case.get("buffer"):
         desc += " input = a generator re-yielding ONE mutable buffer [id], refilled for every item"
     if case.get("call"):
@@ -442,9 +450,13 @@ def correspond(case, run, driver):
         # `if not items: return []` — nothing is started; only the outcome is compared
         if [a["a"] for a in (run["trace"] or [])] not in ([], ["mDone"]) or run["outs"] or oc["kind"] not in ("ok", "closed"):
             fails.append(F("A", "empty input: expected an immediate empty result, got %s %s" % (run["outs"], oc), "A:empty"))
+        if case.get("wrap") and not driver.ask({"op": "inproc", "cfg": cfg})["wrapper_skips"]:
+            fails.append(F("C", "model: wrapperSkips is false on the empty stream", "C:wrapper-guard"))
         return fails, None
     if inprocess(case):
         ans = driver.ask({"op": "inproc", "cfg": cfg})
+        if case.get("wrap") and ans["wrapper_skips"]:
+            fails.append(F("C", "model: wrapperSkips is true on a non-empty stream", "C:wrapper-guard"))
         k = case.get("abandon")
         m_outs, m_err = ans["outs"], ans["err"]
         if k is not None and k <= len(m_outs) and k > 0 or k == 0:
@@ -552,7 +564,7 @@ POLICIES = {
 class C08(Property):
     id = "C08"
     prop_modules = ["CobaVerif.Props.C08"]
-    quick_n = 2500
+    quick_n = 2000
     thorough_n = 30000
     search_n = 1500
     case_timeout = 300
@@ -657,6 +669,10 @@ class C08(Property):
             case["buffer"] = True          # one mutable object, mutated and yielded again for every item
         if rng.chance(0.1):
             case["wrap"] = True
+        if rng.chance(0.12) and items and not case.get("buffer"):
+            case["head"] = rng.choice(["None", "None", "''", "[]", "False", "0"])
+            if rng.chance(0.5):
+                case["wrap"] = True
         case["sched"] = {"seed": rng.below(2 ** 32), "policy": self.gen_policy(rng, n)}
         return case
 
@@ -834,6 +850,21 @@ class C08(Property):
             for pol in ("uniform", "loader-slow"):
                 cs.append({"mode": "sched", "n": n, "m": m, "items": items, "abandon": None, "sched": P(pol)})
         cs.append({"mode": "real", "n": 2, "m": 1, "items": [dict(one(i), unpick=(i == 2)) for i in range(5)], "abandon": None})
+        # falsy values at the head of the stream, and the empty stream, through Multiprocessor and through CobaMultiprocessor
+        gone = lambda v: {"outs": [v], "err": None, "gen": True}
+        for n, m in ((1, 0), (2, 0), (1, 2)):
+            for wrap in (False, True):
+                for head in ("None", "''", "[]", "False", "0"):
+                    c = {"mode": "sched", "n": n, "m": m, "items": [gone(i) for i in range(3)], "abandon": None, "head": head, "sched": P("uniform")}
+                    if wrap:
+                        c["wrap"] = True
+                    cs.append(c)
+                c = {"mode": "sched", "n": n, "m": m, "items": [], "abandon": None, "iter": True, "sched": P("uniform")}
+                if wrap:
+                    c["wrap"] = True
+                cs.append(c)
+        cs.append({"mode": "real", "n": 2, "m": 0, "items": [gone(i) for i in range(3)], "abandon": None, "head": "None", "wrap": True})
+        cs.append({"mode": "real", "n": 1, "m": 0, "items": [gone(i) for i in range(3)], "abandon": None, "head": "None", "wrap": True, "iter": True})
         # a stream that re-yields one mutable buffer; the filter's own AttributeError (also worded like pickle's lookup error)
         for n, m in ((1, 0), (2, 0), (1, 2), (3, 1)):
             cs.append({"mode": "sched", "n": n, "m": m, "items": [one(i) for i in range(6)], "abandon": None, "buffer": True, "sched": P("uniform")})
@@ -902,6 +933,8 @@ class C08(Property):
             tags.append("shape:fewer-items-than-processes")
         if case["m"] > 0 and case["items"] and len(case["items"]) % case["m"] == 0:
             tags.append("shape:multiple-of-m")
+        if case.get("head") and case["items"]:
+            tags.append("head:%s:%s" % (case["head"], "wrap" if case.get("wrap") else "plain"))
         if case.get("buffer"):
             tags.append("stream:reused-buffer")
         if unpicklable(case):
@@ -1041,6 +1074,8 @@ class C08(Property):
             yield {k: v for k, v in case.items() if k != "iter"}
         if case.get("buffer"):
             yield {k: v for k, v in case.items() if k != "buffer"}
+        if case.get("head") and case["head"] != "None":
+            yield dict(case, head="None")
         for k, it in enumerate(items):
             if len(it["outs"]) > 1 and it.get("gen", True):
                 yield dict(case, items=items[:k] + [dict(it, outs=it["outs"][:-1])] + items[k + 1:])
